@@ -35,6 +35,12 @@ def expected_parts(size, chunk):
 class World:
     def __init__(self, scenario, chooser, max_steps=None):
         seams.install()
+        global _RecordingSubscriber
+        if _RecordingSubscriber is None:
+            # created (and its lru_cache'd method validation run) outside of any
+            # simulation, so the first run of a process is like every other
+            _RecordingSubscriber = make_subscriber_cls()
+            _RecordingSubscriber(None, 0, 0, {})
         self.scenario = scenario
         self.knobs = scenario.get('knobs', {})
         self.sim = kernel.Sim(chooser, max_steps=max_steps or scenario.get('max_steps', 60000),
@@ -701,9 +707,16 @@ class World:
         # callbacks and finalisers would run at collector-chosen instants);
         # garbage is collected between runs, with no simulation active
         gc.disable()
+        lp = bool(self.knobs.get('line_preempt'))
+        if lp:
+            from . import linepre
+            lp = linepre.enable()
+            self.sim.max_steps *= 25
         try:
             self.sim.run(self._driver)
         finally:
+            if lp:
+                linepre.disable()
             simstd.reset_between_runs()
             collect_between_runs()
         return self
